@@ -346,8 +346,12 @@ META = {
                   'C01_static_split_left_half_moves_left = the premise dl >= 0 of _merge_left_entry, C01_static_split_right_half_optimum_right = rho >= 0 of the mergeRight entry). '
                   'The FIRST HALF of Blocks::split is assembled from these (C01_static_split_first_half, Vpsc/StaticSplitFirst.v: Block::split on a forest state whose block is '
                   'stationary with lm(c) <= 0, r put back, mergeLeft(l): the two-mode invariant holds at exit and the in-constraints of the final block are satisfied, premises = '
-                  'the invariants of refine\'s second loop only). Not proved: the second half (updateWeightedPosition gives blk_ok from blk_st, mergeRight entry in both modes, '
-                  'kill / cleanup), carrying forest, stationarity (from blk_ok instead of VpscStationary.fresh), T2 and the vector lengths from one split to the next, totality - '
+                  'the invariants of refine\'s second loop only). The SECOND HALF and one WHOLE Blocks::split are proved too (Vpsc/StaticSplitSecond.v: mergeLeft leaves every block outside '
+                  'its final block untouched (C01_static_merge_left_frame), updateWeightedPosition + mergeRight in both modes (C01_static_split_second_half), and '
+                  'C01_static_split_all_sat: Blocks::split from refine\'s invariants returns with every slack >= 0 and book / act_inv / all blocks at their optimum). Solver::refine\'s loop '
+                  'never throws (C01_static_refine_loop_cannot_throw: a throw of refine is a throw of its closing scan), and one pass returns all-satisfied GIVEN that Blocks::split is called '
+                  'in a state with those invariants (C01_static_refine_pass_all_sat_partial, hypothesis scan_ready visible). Not proved: deriving scan_ready from the loop invariant (stationarity '
+                  'from findMinLM on a blk_ok instead of VpscStationary.fresh block, forest through mergeLeft / mergeRight, T2 and the vector lengths from one pass to the next) and totality - '
                   'so passes_ok stays a visible hypothesis. The candidate invariants are evaluated '
                   'as booleans on every split of every DAG solve() instance (Vpsc/StaticRefB.v, driver line r, checked in vlib/c01lib.eval_corr_static): I2 / J / root-min (both heaps) / mode A / '
                   'all-sat-after-split hold on every visited state; the naive ones (mergeLeft(l) leaves everything satisfied, nothing moves right in mergeLeft / left in '
